@@ -523,15 +523,30 @@ func c07CLI(c *Ctx) {
 		}
 	}
 	// over-long lines: around the reader's limit and 1 MiB
-	for _, n := range []int{65000, 65535, 65536, 65537, 66000, 131072, 1 << 20} {
+	// wide lines (one long string) around the limit and at 1 MiB; DEEP lines (nothing but nesting) from 128 KiB to 12 MiB:
+	// whatever the reader's limit is, a line it lets through must not bring the process down
+	for _, n := range []int{65000, 65535, 65536, 65537, 66000, 131072, 1 << 20, -(128 << 10), -(1 << 20), -(5 << 20), -(12 << 20)} {
 		for pos := 0; pos < 2; pos++ {
 			caseNo++
 			if !c.Mine(caseNo) {
 				continue
 			}
 			marker := "LONGLINEMARKERq7Z"
-			pad := n - len(`{"c":"NETWORK","msg":"m","attr":{"pad":""}}`) - len(marker)
-			long := `{"c":"NETWORK","msg":"m","attr":{"pad":"` + marker + strings.Repeat("x", pad) + `"}}`
+			var long string
+			if n > 0 {
+				pad := n - len(`{"c":"NETWORK","msg":"m","attr":{"pad":""}}`) - len(marker)
+				long = `{"c":"NETWORK","msg":"m","attr":{"pad":"` + marker + strings.Repeat("x", pad) + `"}}`
+			} else {
+				n = -n
+				k := (n - 120) / 2
+				kind := "["
+				if pos == 1 {
+					kind = `{"k":` // objects in the second position
+					k = (n - 120) / 6
+				}
+				closer := map[string]string{"[": "]", `{"k":`: "}"}[kind]
+				long = `{"c":"COMMAND","msg":"Slow query","attr":{"command":{"find":"c","filter":{"LONGLINEMARKERq7Z":` + strings.Repeat(kind, k) + `1` + strings.Repeat(closer, k) + `}}}}`
+			}
 			var in string
 			if pos == 0 {
 				in = good1 + "\n" + long + "\n" + good2 + "\n"
